@@ -254,6 +254,11 @@ func (v *FnVC) encodeAlloc(i *ssa.Alloc) {
 	v.ptrs[i] = l
 	v.store(st, l, v.S.Zero(el))
 	v.initGhosts(el, func() string { return ref })
+	if st, isS := structOf(el); isS && l.Kind == LObj && unescapedAlloc(i) {
+		for k := 0; k < st.NumFields(); k++ {
+			v.stableCells = append(v.stableCells, stableCell{key: v.fieldKey(el, st.Field(k)), ref: ref, src: i, field: k})
+		}
+	}
 	if _, isS := structOf(el); !isS && l.Kind == LCell && stableLocal(i) {
 		captured := false
 		for _, r := range *i.Referrers() {
@@ -262,7 +267,7 @@ func (v *FnVC) encodeAlloc(i *ssa.Alloc) {
 			}
 		}
 		if captured {
-			v.stableCells = append(v.stableCells, stableCell{key: l.Key, ref: ref})
+			v.stableCells = append(v.stableCells, stableCell{key: l.Key, ref: ref, src: i, field: -1})
 		}
 	}
 }
